@@ -237,7 +237,7 @@ fn maybe_format(input: &str) -> Option<(LeftToParse<'_>, MaybeFormat<'_>)> {
 ///
 /// # Grammar
 ///
-/// [`format`]` := '{' [`[`argument`]`] [':' `[`format_spec`]`] '}'`
+/// [`format`]` := '{' [`[`argument`]`] [':' `[`format_spec`]`] [ws]* '}'`
 ///
 /// # Example
 ///
@@ -259,6 +259,8 @@ pub(crate) fn format(input: &str) -> Option<(LeftToParse<'_>, Format<'_>)> {
         |i| Some((i, None)),
         map(format_spec, |(i, s)| (i, Some(s))),
     )(input)?;
+
+    let input = whitespaces(input)?;
 
     let input = char('}')(input)?;
 
@@ -452,7 +454,10 @@ fn type_(input: &str) -> Option<(&str, Type)> {
         &mut map(char('b'), |i| (i, Type::Binary)),
         &mut map(char('e'), |i| (i, Type::LowerExp)),
         &mut map(char('E'), |i| (i, Type::UpperExp)),
-        &mut map(lookahead(char('}')), |i| (i, Type::Display)),
+        &mut map(
+            lookahead(try_seq(&mut [&mut whitespaces, &mut char('}')])),
+            |i| (i, Type::Display),
+        ),
     ])(input)
 }
 
@@ -541,6 +546,14 @@ fn integer(input: &str) -> Option<(LeftToParse<'_>, usize)> {
 /// [0]: std::fmt#syntax
 fn text(input: &str) -> Option<(LeftToParse<'_>, &str)> {
     take_until1(any_char, one_of("{}"))(input)
+}
+
+/// Parses zero or more whitespace [`char`]s (as [`std::fmt`] allows them before the closing `}`).
+/// Never fails.
+///
+/// [`char`]: fn@char
+fn whitespaces(input: &str) -> Option<LeftToParse<'_>> {
+    Some(take_while0(check_char(char::is_whitespace))(input).0)
 }
 
 type FallibleParser<'p> = &'p mut dyn FnMut(&str) -> Option<&str>;
